@@ -36,6 +36,17 @@ CHECKS = {
             "and REPL sessions (replace_locals / release_orphan_locals), down to quantum 1; results are compared with the value the "
             "mechanism model assigns (ContentPreserved); refcount assertion panics are recorded as data.",
             RT_NOTE + " Reachability is recomputed by the harness from Process fields, not by reachable_heap_indices.", RT_TECH),
+    "C11": ("repl", "model_checking",
+            "spec/Repl.tla is the session machine (accepted lines, dead-after-nil, variables; a rejected line leaves the state "
+            "unchanged); TLC generates line histories over a 26-line pool (bindings, destructurings, shadowing with a type change, type "
+            "aliases, closures over earlier bindings, imports, continuation lines using the flowing previous result, parser- and "
+            "compiler-rejected lines, nil lines, heap binaries) and all splits of five programs into lines; each history is replayed "
+            "into the real Repl (per-line value, variable listing, read-back of every variable) and per accepted prefix into the real "
+            "compiler+VM as one program; spec/ReplTrace.tla judges LineEqualsProgramStep, EarlierBindingsKept, "
+            "RejectedLineLeavesSession, VariableEqualsProgramBinding, SessionAlive.",
+            "Trusted: the one-program side is the real compiler+VM on the joined accepted lines (its agreement with the language "
+            "semantics is C02's matter); function values are compared by captured values. Histories of length <= 5.",
+            "TLA+ session-machine specification; TLC-generated histories replayed into the implementation; recorded sessions validated by TLC"),
     "C14": ("runtime", "model_checking",
             "The mechanism model includes the environment's ownership table, the effect request/completion protocol and a backend "
             "registry; TLC checks ClosedAtExit / BackendCallsLegal / OwnerKnown exhaustively on resource scenarios (open, use, explicit "
@@ -72,6 +83,8 @@ ENGINES = [
      "kind_free_text": "TLC exhaustive model checking of spec/Runtime.tla (and spec/Heap.tla) per scenario family + recorded executions "
                        "of the real Environment/Workers (harness `sim`) judged by the TLA+ property monitor spec/RuntimeObs.tla and "
                        "validated against the mechanism model by spec/RuntimeTrace.tla"},
+    {"name": "repl", "path": "engines/repl_engine.py", "serves_properties": ["C11"],
+     "kind_free_text": "TLC generates histories of spec/Repl.tla; harness replrun/qrun replay them; spec/ReplTrace.tla judges"},
     {"name": "dict", "path": "engines/dict_engine.py", "serves_properties": ["C19"],
      "kind_free_text": "TLC enumerates histories of spec/Dict.tla; replay into %dict; spec/DictTrace.tla judges"},
     {"name": "num", "path": "engines/num_engine.py", "serves_properties": ["C20"],
